@@ -96,9 +96,12 @@ def build_jobs(tier, rep):
     for k, d in enumerate(gen.sample(short, 15000 if q else 100000, C.SEED + 2)):
         enc = d.replace("\n", "\r\n") if k % 2 else d.replace("\n", "\r")
         jobs.append((cfgs[k % 3], enc))
+    tw = gen.twins(gen.sample(l1, 25000 if q else 300000, C.SEED + 4, keep_short=2000), C.SEED, per_doc=2)
+    for k, d in enumerate(tw):
+        jobs.append((cfgs[k % len(cfgs)], d))
     if q and len(jobs) > 420000:
         jobs = gen.sample(jobs, 420000, C.SEED + 3)
-    rep.cov["bounds"] = {"L1": len(l1), "L0": len(l0), "configs": len(cfgs), "executed": len(jobs)}
+    rep.cov["bounds"] = {"L1": len(l1), "L0": len(l0), "configs": len(cfgs), "unicode_twin_docs": len(tw), "executed": len(jobs)}
     rep.cov["exhaustive"] = False
     return jobs
 
